@@ -92,6 +92,41 @@ Example C18_example :
   /\ show_energy e = cs "-3, CONSUMO, CAL, GASNATURAL, 125.12, 0.00, -2.50 # caldera, antigua # 2".
 Proof. cbv zeta. split; [unfold i32; Lia.lia|]. split; [vm_compute; reflexivity|]. split; vm_compute; reflexivity. Qed.
 
+(** ** the files saved with --of evaluate the building to the same results
+
+    --of writes the prepared factor set simplified for the building ([strip]); reading it with -f prepares it again
+    ([normalize_factors], with the defaults [e1 e2] of that run).  For every prepared set [fs'], every component set
+    with non-negative values (whose auxiliary components carry no COGEN service: true of every normalised set) whose
+    carriers have a grid factor in [fs'], the second preparation succeeds and the evaluation gives the same carrier
+    balances, or the same error.  With C18_factors_file (the set read back is the set written when its values have
+    three decimals, which the values of the regulatory tables have) this is the factors half of "a building evaluated
+    from the saved files gives the same results". *)
+From Cteepbd Require Import Model.Factors Model.Components Proofs.ColFacts Proofs.CtxFacts Proofs.ReloadFacts.
+Theorem C18_saved_factors_evaluate_the_same : forall c fs fs' d1 d2 e1 e2 k area lm,
+  normalize_factors fs d1 d2 = Ok fs' -> nonneg_data (c_data c) -> aux_ok (c_data c) ->
+  (forall cr, In cr (avail_carriers (c_data c)) -> lookk fs' (grid_key cr) <> None) ->
+  exists fs'', normalize_factors (strip fs' (c_data c)) e1 e2 = Ok fs'' /\
+  match energy_performance c fs' k area lm, energy_performance c fs'' k area lm with
+  | Ok e, Ok e' => ep_bal e = ep_bal e' /\ ep_k e = ep_k e' /\ ep_area e = ep_area e' /\ ep_needs e = ep_needs e' /\ ep_data e = ep_data e'
+  | Err a, Err b => a = b
+  | _, _ => False
+  end.
+Proof. exact saved_factors_evaluate_the_same. Qed.
+
+(** non-vacuity: a gas boiler and nothing else (the case of fix 1505fba): the saved set has no electricity at all *)
+Example C18_saved_factors_example :
+  let data := [EUsed 1 GASNATURAL CAL [qz 100; qz 120] []] in
+  let fs := [mkFactor ELECTRICIDAD RED SUMINISTRO STEP_A (mkRNC (qfrac 414 1000) (qfrac 1954 1000) (qfrac 331 1000)) [];
+             mkFactor GASNATURAL RED SUMINISTRO STEP_A (mkRNC (qfrac 5 1000) (qfrac 1190 1000) (qfrac 252 1000)) []] in
+  match normalize_factors fs default_red default_red with
+  | Ok fs' => nonneg_data data /\ aux_ok data /\ (forall cr, In cr (avail_carriers data) -> lookk fs' (grid_key cr) <> None)
+              /\ map f_cr (strip fs' data) = [GASNATURAL]
+  | Err _ => False end.
+Proof.
+  vm_compute. split; [repeat constructor; discriminate|]. split; [repeat constructor|]. split; [|reflexivity].
+  intros cr [<-|[]]. discriminate.
+Qed.
+
 Print Assumptions C18_fields.
 Print Assumptions C18_stored_comments_are_trimmed.
 Print Assumptions C18_id.
@@ -104,3 +139,4 @@ Print Assumptions C18_demand_line.
 Print Assumptions C18_factor_line.
 Print Assumptions C18_metadata_line.
 Print Assumptions C18_factors_file.
+Print Assumptions C18_saved_factors_evaluate_the_same.
